@@ -52,6 +52,12 @@ Theorem C16_convert_ok_content : forall fixed m c,
 Proof. exact convert_ok_content. Qed.
 Print Assumptions C16_convert_ok_content.
 
+(** [ext] Whenever the conversion succeeds its result is exactly the error-free specification [spec]
+    (plain maps over the object: instrument index / program / is_drum tags, key = number mod 12, ...). *)
+Theorem C16_convert_ok_is_spec : forall fixed m c, convert_gen fixed m = Ok c -> c = spec m.
+Proof. exact convert_ok_is_spec. Qed.
+Print Assumptions C16_convert_ok_is_spec.
+
 (** [ext] total_time is exactly the latest note end (0 without notes). *)
 Theorem C16_total_time_is_max_end : forall m c,
   pm_invb m = true -> convert m = Ok c ->
